@@ -1,9 +1,130 @@
-(* C08 — Stream reader: exact ordered delivery with back-pressure. (statements only) *)
-From AV Require Import Lib.Base Generated.StreamGen Model.Stream.
+(* C08 — Stream reader: exact ordered delivery with back-pressure.
+   Only statements; each closed by `exact` of a lemma proved in Proofs/Stream*.v.
+
+   Model: Model/Stream.v (StreamReader + BaseProtocol pause/resume + a parser stub that feeds held
+   input re-entrantly on resume).  `run ops (init_sys limit)` executes ANY finite sequence of
+   producer operations (feed_data of any size, begin/end chunk, feed_eof, set_exception, input held by
+   the parser), consumer calls (read(n), read(), readany, readuntil/readline, readexactly, readchunk,
+   read_nowait, unread_data, set_read_chunk_size) and event-loop turns (ORun resumes a woken reader),
+   and returns the final system state and one observation per operation.  All theorems quantify over
+   every such sequence and every limit (no bound). *)
+From AV Require Import Lib.Base Generated.StreamGen Model.Stream
+  Proofs.StreamBase Proofs.StreamInv Proofs.StreamFlow Proofs.StreamDeliver Proofs.StreamEof Proofs.StreamChunk.
 Open Scope Z_scope.
 
-Example C08_example_limit0_stuck :
-  let '(y, _) := run [OFeed [97;98;99]; OStart CReadAny; OStart CReadAny] (init_sys 0) in
-  wt (sst y) = Waiting /\ paused (sst y) = true.
-Proof. vm_compute. split; reflexivity. Qed.
-Print Assumptions C08_example_limit0_stuck.
+(* ---- exact ordered delivery ------------------------------------------------------------------
+   obs_bytes b   = the bytes operation b handed to its caller (returned bytes; for a call that raised,
+                   the bytes it had already taken: IncompleteReadError.partial, LineTooLong's line, or
+                   what read()/readexactly()/readuntil() had accumulated when the stream exception hit)
+   inflight y    = the bytes the suspended call has accumulated so far
+   fedlog        = concatenation of every non-empty block accepted by feed_data, in order
+                   (unread_data inserts its argument at the current read position)
+   So: no loss, no duplication, no reordering, at every point of every run. *)
+Theorem C08_conservation : forall limit ops y bs,
+  run ops (init_sys limit) = (y, bs) ->
+  concat (map obs_bytes bs) ++ inflight y ++ concat (buf (sst y)) = fedlog (sst y).
+Proof. exact conservation. Qed.
+Print Assumptions C08_conservation.
+
+(* the bookkeeping the implementation relies on holds in every reachable state *)
+Theorem C08_invariant : forall limit ops, Inv (sst (fst (run ops (init_sys limit)))).
+Proof. exact Inv_run. Qed.
+Print Assumptions C08_invariant.
+
+(* ---- end-of-stream last -------------------------------------------------------------------------
+   After ANY run, if the next operation completes a call with an end-of-stream indication
+   (read(n>0)/readany/readline/readuntil returning b"", read() returning, readexactly raising
+   IncompleteReadError, readchunk returning (b"", False); async iteration stops on exactly these)
+   then EOF was fed and the buffer is empty; by C08_conservation everything received has then
+   been handed out.  `eof_ind_c` / `eof_ind_k` (Proofs/StreamEof.v) name those results for a call that
+   completes at once / a suspended call that the loop resumes. *)
+Theorem C08_eof_last : forall limit ops o y' r,
+  let y := fst (run ops (init_sys limit)) in
+  step o y = (y', ObDone r) ->
+  match o with
+  | OStart c => eof_ind_c c r
+  | ORun => match task y with Some k => eof_ind_k k r | None => False end
+  | _ => False
+  end ->
+  at_eof (sst y') = true.
+Proof. exact eof_last. Qed.
+Print Assumptions C08_eof_last.
+
+(* ---- chunk boundaries ----------------------------------------------------------------------------
+   endlog = the values of total_bytes recorded by end_http_chunk_receiving (the sender's chunk ends);
+   cursor = the read position in the same coordinates (cursor + size = total_bytes, C08_invariant).
+   Whenever readchunk (called now, or suspended and resumed) returns (data, True), the read position
+   is one of the sender's chunk ends. *)
+Theorem C08_chunk_boundary_sound : forall limit ops o y' d,
+  let y := fst (run ops (init_sys limit)) in
+  step o y = (y', ObDone (RChunk d true)) ->
+  o = OStart CReadChunk \/ (o = ORun /\ task y = Some KReadChunk) ->
+  In (cursor (sst y')) (endlog (sst y')).
+Proof. exact chunk_sound. Qed.
+Print Assumptions C08_chunk_boundary_sound.
+
+(* ---- back-pressure ------------------------------------------------------------------------------ *)
+
+(* pause: feed_data leaves the transport paused whenever the buffer exceeds the high-water mark *)
+Theorem C08_pause_on_high_water : forall d s s',
+  feed_data d s = (s', None) -> d <> [] -> high s' < size s' -> paused s' = true.
+Proof. exact feed_pauses. Qed.
+Print Assumptions C08_pause_on_high_water.
+
+(* ... and end_http_chunk_receiving when more than high_water_chunks splits are outstanding *)
+Theorem C08_pause_on_chunk_count : forall s s' l,
+  end_chunk s = (s', None) -> splits s' = Some l -> splits s <> Some l -> highc s' < len l -> paused s' = true.
+Proof. exact end_chunk_pauses. Qed.
+Print Assumptions C08_pause_on_chunk_count.
+
+(* resume: after any consumption step (_read_nowait_chunk, including the re-entrant feeding it may
+   trigger) the transport is paused only if the buffer is at/above the low-water mark or at least
+   low_water_chunks splits are outstanding *)
+Theorem C08_resume_below_low_water : forall n f r s,
+  Inv s -> W s -> buf s = f :: r -> pause_justified (fst (rnc n f r s)).
+Proof. exact rnc_resume_rule. Qed.
+Print Assumptions C08_resume_below_low_water.
+
+(* no stuck pause: for limit >= 1, whenever the reader is suspended in _wait the buffer is empty and
+   the transport is reading; more generally an empty buffer is never left paused *)
+Theorem C08_not_stuck_partial : forall limit ops,
+  1 <= limit ->
+  let y := fst (run ops (init_sys limit)) in
+  wt (sst y) = Waiting -> buf (sst y) = [] /\ paused (sst y) = false.
+Proof. exact not_stuck. Qed.
+Print Assumptions C08_not_stuck_partial.
+
+Theorem C08_empty_buffer_is_reading_partial : forall limit ops,
+  1 <= limit ->
+  let y := fst (run ops (init_sys limit)) in
+  buf (sst y) = [] -> paused (sst y) = false.
+Proof. exact empty_buffer_reading. Qed.
+Print Assumptions C08_empty_buffer_is_reading_partial.
+
+(* The hypothesis 1 <= limit cannot be dropped: with limit = 0 (read_bufsize=0) the full statement is
+   false.  feed_data(b"abc"); readany(); readany()  leaves the reader suspended with the transport
+   paused.  Replayed on the implementation: corpus/C08/limit0_stuck.json (known finding). *)
+Theorem C08_not_stuck_refuted : exists limit ops,
+  let y := fst (run ops (init_sys limit)) in
+  wt (sst y) = Waiting /\ task y <> None /\ buf (sst y) = [] /\ paused (sst y) = true.
+Proof.
+  exists 0, [OFeed [97%N; 98%N; 99%N]; OStart CReadAny; OStart CReadAny].
+  vm_compute. repeat split; discriminate.
+Qed.
+Print Assumptions C08_not_stuck_refuted.
+
+(* non-vacuity: the water-mark hypothesis W holds for every limit >= 1 initially, and a concrete run
+   with chunks, re-entrant feeding, a blocked reader and EOF *)
+Example C08_example_W : W (init 1) /\ W (init 65536).
+Proof. split; apply W_init; lia. Qed.
+Print Assumptions C08_example_W.
+
+Example C08_example_run :
+  snd (run [OBegin; OFeed [1%N; 2%N; 3%N; 4%N; 5%N]; OEnd; OPend (PData [6%N; 7%N]); OPend PEndC;
+            OStart CReadChunk; OStart (CRead 2); OStart CReadChunk; OStart CReadAny; OFeed [8%N]; ORun;
+            OEof; OStart CReadChunk] (init_sys 2)) =
+  [ObNone; ObNone; ObNone; ObNone; ObNone;
+   ObDone (RChunk [1%N; 2%N; 3%N; 4%N; 5%N] true); ObDone (RBytes [6%N; 7%N]); ObDone (RChunk [] true);
+   ObBlocked; ObNone; ObDone (RBytes [8%N]); ObNone; ObDone (RChunk [] false)].
+Proof. vm_compute. reflexivity. Qed.
+Print Assumptions C08_example_run.
